@@ -242,7 +242,7 @@ Section Sound.
      \/ (p_at_eof p' = true /\ (i0 - length pre <= length pv)%nat /\
          d = dropb (if first then 2 else 0) (firstn (i0 - length pre) pv))).
   Proof.
-    intros HV Hpre Hpv Hf K J Hsz Hb. unfold fs_rest.
+    intros HV Hpre Hpv Hf K J Hsz Hb. unfold fs_rest. pose proof D_len as DL.
     assert (BL : p_blen p = N.of_nat (length D)).
     { unfold p_blen, boundary_len_formula. rewrite Hb, D_len. unfold lenN. lia. }
     assert (Hs0 : 0 < size) by (pose proof (blen_ge2 p); lia).
@@ -281,7 +281,7 @@ Section Sound.
         left. rewrite (firstn_all2 pv) by lia. rewrite (firstn_app_ge pv chunk k) by lia.
         rewrite skipn_app, skipn_all, Nat.sub_diag. cbn [skipn app].
         assert (NE : is_nil (firstn (k - length pv) chunk) = false).
-        { apply is_nil_false. intro Z. apply (f_equal (@length N)) in Z. rewrite firstn_length in Z. cbn in Z. lia. }
+        { apply is_nil_false. intro Z. apply (f_equal (@length N)) in Z. rewrite firstn_length in Z. cbn [length] in Z. lia. }
         rewrite NE. cbn [p_at_eof p_set_window orb p_prev p_content_eof]. split; [reflexivity|].
         split; [destruct first; reflexivity|].
         exists (firstn (k - length pv) chunk). split; [reflexivity|].
